@@ -124,9 +124,9 @@ func (s pairSet) mayFreed() ssa.Instruction {
 
 type refState struct {
 	errK     int
-	bools    map[ssa.Value]bool // local bool cells with a known constant value
-	refs     map[interface{}]pairSet // ssa.Value | cell(ssa.Value) | place(string)
-	deferred []ssa.Instruction       // registered deferred frees / closures (in order)
+	bools    map[ssa.Value]bool            // local bool cells with a known constant value
+	refs     map[interface{}]pairSet       // ssa.Value | cell(ssa.Value) | place(string)
+	deferred []ssa.Instruction             // registered deferred frees / closures (in order)
 	cond     map[ssa.Value][]*ssa.Function // executor result -> closures that run iff true
 }
 
